@@ -143,24 +143,35 @@ Print Assumptions C06_bad_argument_never_enters.
 
 (* "... without side effects".  FULL statement: "every other object id, name, method name or class name fails THAT REQUEST and
    changes nothing".  Proved: _partial -- a request answered with an error (Reject) or arriving on a dead connection changes
-   none of the tables of lib/Reach.v (name tables, registry, declarations, both export tables, counters) and emits no reference.
-   What is missing, each with a machine-checked witness replayed on the real code:
-     (1) C06_unknown_yourref_drops_connection_refuted: a your-reference ARGUMENT with an unknown id does not fail that request but
-         drops the whole connection (outcome Aborted, C06_dropped_local says exactly what is lost);
-     (2) C06_refusal_pure_full_refuted: against the state that also holds the proxy table and the Tub's dials, a request refused
-         because of a LATER argument has already created a proxy / dialled a gift / instantiated a registered class.
+   none of the tables of lib/Reach.v (name tables, registry, declarations, both export tables, counters) and emits no reference;
+   and every faulty request IS answered that way unless it is a protocol error (C06_dropped_only_for_protocol_error,
+   C06_unknown_yourref_fails_only_that_request).  What is still missing is ONLY the state outside those tables
+   (C06_refusal_pure_full_refuted, known finding oracle/refused-request-left-proxy-or-dial): a request refused because of a LATER
+   argument has already created a proxy / dialled a gift / instantiated a registered class.
    A call entering an application object changes no table; other top-level sequences change nothing. *)
 Theorem C06_refusal_pure_partial : forall w st c req clid m args st' r,
   step w st (Msg c req clid m args) = (st', r) -> r_out r = Reject \/ r_out r = Dead -> st' = st /\ r_sent r = [].
 Proof. exact refusal_pure. Qed.
 Print Assumptions C06_refusal_pure_partial.
 
-Theorem C06_unknown_yourref_drops_connection_refuted :
-  exists w h st rs, run w init h = (st, rs) /\ h = yr_hist /\
-    map r_out rs = [Local; Local; Aborted] /\ c_alive (get_conn st CA) = false /\ c_exports (get_conn st CA) = [] /\
-    List.length (c_exports (get_conn (fst (run w init (firstn 2 h))) CA)) = 2%nat.
-Proof. exact unknown_yourref_drops_connection_refuted. Qed.
-Print Assumptions C06_unknown_yourref_drops_connection_refuted.
+(* "every other object id ... fails THAT request", for a your-reference ARGUMENT naming an id the connection's table does not hold
+   (since the fix 0058e18; before it the KeyError escaped and the whole connection was dropped): exactly that request is
+   refused, the connection stays, no table changes, nothing is sent *)
+Theorem C06_unknown_yourref_fails_only_that_request : forall w st c req clid m args st' r k,
+  step w st (Msg c req clid m args) = (st', r) -> clid <> 0 -> c_alive (get_conn st c) = true ->
+  In (AYourRef k) args -> k <> 0 -> zget k (c_exports (get_conn st c)) = None ->
+  (forall k', In (AYourRef k') args -> 0 <= k') ->
+  r_out r = Reject /\ st' = st /\ r_sent r = [] /\ c_alive (get_conn st' c) = true.
+Proof. exact unknown_yourref_fails_only_that_request. Qed.
+Print Assumptions C06_unknown_yourref_fails_only_that_request.
+
+(* ... and the ONLY inbound call that still costs the peer its connection is a protocol error -- a NEG token inside a
+   your-reference (checkToken: BananaError).  Unknown ids, names, classes, OPEN types, method names that are not UTF-8 never do. *)
+Theorem C06_dropped_only_for_protocol_error : forall w st c req clid m args st' r,
+  step w st (Msg c req clid m args) = (st', r) -> r_out r = Aborted ->
+  clid <> 0 /\ exists k, In (AYourRef k) args /\ k < 0.
+Proof. exact dropped_only_for_protocol_error. Qed.
+Print Assumptions C06_dropped_only_for_protocol_error.
 
 Theorem C06_dropped_local : forall w st c req clid m args st' r,
   step w st (Msg c req clid m args) = (st', r) -> r_out r = Aborted ->
@@ -234,6 +245,16 @@ Theorem C06_decref_both_tables : forall (ex : list (Z * (Z * Z))) k n byclid byp
   (zget k byclid = None <-> zget o bypuid = None).
 Proof. exact decref_both_tables. Qed.
 Print Assumptions C06_decref_both_tables.
+
+(* "(a) objects it names by their unguessable registered name": Tub._assignName and Tub.getReferenceForName, translated statement by
+   statement (one lookup handler), are the model's assign_name / found_name for all inputs *)
+Theorem C06_translated_assign_name : forall st o pref sw, assign_name_T st o pref sw = assign_name st o pref sw.
+Proof. exact assign_name_T_eq. Qed.
+Print Assumptions C06_translated_assign_name.
+
+Theorem C06_translated_name_lookup : forall w st n, found_name_T w st n = found_name w st n.
+Proof. exact found_name_T_eq. Qed.
+Print Assumptions C06_translated_name_lookup.
 
 (* end to end: on every history the machine that runs the translated code and the model agree, state by state and result by
    result; every history-level theorem above therefore speaks about the translated code *)
